@@ -9,6 +9,24 @@ NOTE_COMMON = ("Trusted: go/ssa lowering (x/tools v0.29.0), the symgo executor's
                "in the evidence file (coverage.bounds / coverage.outside_claim) and DESIGN.md. unknown/timeout/unsupported are reported "
                "as INCONCLUSIVE, never as success or violation. ")
 claimed = {
+ 'C01': dict(cat='model_checking', ref='5/C01',
+   text="The real decoders are executed symbolically (a) on every byte string of the stated short lengths per message type with all octets symbolic, through all three entry points, and (b) on an input of symbolic length 0..70000 whose contents are an uninterpreted function of the position, so that every declared IE length and every truncation point is one path; every slice/index/nil/make site is a solver query, progress and an allocation bound (c + 2*len + 64 KiB) are asserted after the mandatory part and two loop iterations. No sampling.",
+   note="(b) is cut at the third entry into the optional-element loop; longer inputs rely on the per-iteration facts (DESIGN 5/C01)."),
+ 'C02': dict(cat='model_checking', ref='5/C02',
+   text="For each of the 45 messages a symbolic well-formed message (every content octet symbolic) is built for the shape families none / all / each single / all-but-one optional element at boundary lengths, encoded with the real PlainNasEncode and decoded with the real PlainNasDecode; z3 proves structural equality of the result with the original, success of both steps and the header view, for all contents at once.",
+   note="Arbitrary subsets of optional elements follow by composition of C04's per-element facts (argument in DESIGN, not a solver result). Lengths capped at 24 (quick) / 300 (thorough); C04 covers every declared length on the decode side."),
+ 'C03': dict(cat='model_checking', ref='5/C03',
+   text="(a) every accepted short byte string per message type: decode, re-encode, decode, encode again; the two messages and the two encodings are proved equal (fixed point). (c) reference encodings (table-driven encoder) of the shape families are accepted and the real re-encoding is proved byte-identical.",
+   note="Tail lengths <= 3 (quick) / 5 (thorough) beyond the mandatory minimum for (a)."),
+ 'C04': dict(cat='model_checking', ref='5/C04',
+   text="Differential check against an independent 150-line table-driven codec driven by /verif/spec/msgtables.json: real Decode<M> on symbolic-length input (0..70000, identifier octet over all 256 values, every declared length) must accept/reject exactly like the reference and yield the same field values; real Encode<M> output on the shape families must equal the reference encoding. All 90 generated functions are entered.",
+   note="Quick explores the mandatory part plus one optional element, thorough two. Oracle provenance: tables bootstrapped from the pinned tree, then audited (spec/AUDIT.md); a drift of the code from the tables is detected with certainty, conformance of the tables to TS 24.501 as far as the audit goes."),
+ 'C05': dict(cat='model_checking', ref='5/C05',
+   text="The real dispatchers are executed on all short inputs with symbolic octets (all 256x256 discriminator/type pairs) and per message type on all lengths up to the message's minimum + 2; on success exactly one body is set, it is the one named by the type octet, the other family is nil, the header view equals the body's header octets; unknown discriminator/type, nil, empty and short inputs are proved rejected; encode dispatch with symbolic header type.",
+   note="Known header type with nil body on encode is outside the property as read (observation in DESIGN)."),
+ 'C10': dict(cat='model_checking', ref='5/C10',
+   text="The engine's heap makes aliasing first-class: on every explored path of decode (accepted and rejected inputs) the input object is proved unchanged and no object reachable from the message is reachable from the input; for encode the message is proved unchanged, the buffer prefix kept and the appended bytes independent of the buffer's prior content; a second run gives equal results.",
+   note="Bounds as C03(a)/C02 shapes none+all."),
  'C20': dict(cat='model_checking', ref='5/C20',
    text="Inductive step decided by z3: from an arbitrary allocator state satisfying the representation invariant (any minValue, any scan offset, any live subset; range sizes 1..6/10) one Allocate / Allocate_inRange(any 16-bit a,b) / FreeID(any int64) is executed symbolically on the real code (the scan loop is unrolled by execution, the Go map is a symbolic association list); asserted: id in [min,max], id was not live, live set = pre+{id}, failure only when all ids live, freed id allocatable again, invariant re-established. Plus all op histories of depth <=3/4 from NewGenerator. One step from any state covers sequences of any length.",
    note="Bounds: valueRange <= 6 (quick) / 10 (thorough); Allocate_inRange arguments 16-bit. maxValue < minValue outside the claim."),
